@@ -232,6 +232,21 @@ def rule_e(chk, prog):
                 else:
                     chk.violation("C19.e", where, norm(a)[:80], "the mask excludes the observation's own date: on that day the previous observation's depth is still "
                                   "used, the daily depth does not follow the configured observations", loc=fi.loc(a))
+    # the mask stores overwrite each other in loop order: the observations must be in chronological order first
+    if nmask:
+        loop_nodes = [flow.stmt_node.get(id(l)) for l in walk_no_nested(fi.node) if isinstance(l, ast.For)
+                      and any(isinstance(a2, ast.Assign) and isinstance(a2.targets[0], ast.Subscript) and isinstance(a2.targets[0].slice, ast.Compare) for a2 in ast.walk(l))]
+        sorts = {flow.stmt_node.get(id(st)) or flow.node_of(st) for st in walk_no_nested(fi.node) if isinstance(st, ast.Assign)
+                 and any(isinstance(c, ast.Call) and isinstance(c.func, ast.Attribute) and c.func.attr in ("sort_values", "sort_index") for c in ast.walk(st.value))}
+        sorts.discard(None)
+        for ln in [x for x in loop_nodes if x is not None]:
+            n += 1
+            construct = "held-constant observations applied in a loop that overwrites later days"
+            if sorts and not flow.cfg.paths_exist_avoiding(flow.cfg.entry, ln, sorts):
+                chk.ok("C19.e", where, construct, "the observations are sorted by date before the loop (on every path)")
+            else:
+                chk.violation("C19.e", where, construct, "the loop applies the observations in the order given; dates listed out of order make an earlier observation "
+                              "override a later one", loc=fi.loc(flow.cfg.nodes[ln].ast))
     # ... or, written with pandas: forward fill on the simulation days - then the days before the first observation need a backward fill
     nff = 0
     for c in walk_no_nested(fi.node):
